@@ -654,7 +654,10 @@ class StmtMixin:
             for g, init in spec.get("ghost_init", {}).items():
                 self.ghost_assign(f"{g} = {init}")
             self.check_invariants(invs, "inv-init", ordinal)
-        # ---- havoc
+        # ---- havoc (the allocation clock moves to an arbitrary later time)
+        now_h = z3.Int(ctx.fresh_name("now"))
+        ctx.assume(now_h >= ctx.now)
+        ctx.now = now_h
         self.havoc_names((names | mutated) - loop_targets, decl)
         for t in loop_targets:
             if t in decl:
